@@ -65,6 +65,7 @@ type ue struct {
 	pendingICSResp     bool // Initial Context Setup Response outstanding (registration)
 	pendingRegComplete bool
 	pendingSvcICS      bool // Initial Context Setup Response outstanding (service request)
+	refusedOnce        bool // the network has refused (or postponed) this UE's session establishment once
 
 	sess          sessState
 	psi           int
@@ -645,6 +646,10 @@ func (a *AMF) onServiceRequest(u *ue, nas []byte, what string) ([]dlMsg, string,
 	if u.state != stRegistered {
 		return nil, what, a.viol("prerequisite:service", "%s: Service Request from a UE that is not registered (state %d)", what, u.state)
 	}
+	if u.refusedOnce && u.sess != ssActive {
+		// (test mode requests services only for UEs with an established session: service count = min(established, ue_service))
+		return nil, what, a.viol("prerequisite:service-without-session", "%s: Service Request for a UE whose PDU session the network refused (session state %d)", what, u.sess)
+	}
 	env, v := a.unprotect(u, nas, what, 1, 2)
 	if v != nil {
 		return nil, what, v
@@ -947,6 +952,23 @@ func (a *AMF) onULNASTransport(u *ue, plain []byte, what string) ([]dlMsg, strin
 		u.psi, u.pti = sm.SMPSI, sm.SMPTI
 		a.Obs.PSIs = append(a.Obs.PSIs, u.psi)
 		ch := u.ch
+		if ch.Refuse == "reject" || (ch.Refuse == "congestion" && !u.refusedOnce) {
+			u.refusedOnce = true
+			var n1 []byte
+			if ch.Refuse == "reject" {
+				// PDU SESSION ESTABLISHMENT REJECT (TS 24.501 8.3.3): EPD, PSI, PTI, type 0xC3, 5GSM cause #26
+				n1 = BuildDLNASTransport(1, []byte{EPD5GSM, byte(u.psi), byte(u.pti), 0xc3, 26}, u.psi)
+			} else {
+				// the request is returned unforwarded: payload container as received, PSI, 5GMM cause #22, back-off timer
+				n1 = append(BuildDLNASTransport(1, m.Payload, u.psi), 0x58, 22, 0x37, 0x01, 0x21)
+			}
+			b, err := a.buildDownlinkNASTransport(u, u.protect(2, n1), 0)
+			if err != nil {
+				return nil, what, a.viol("harness", "cannot encode DownlinkNASTransport: %v", err)
+			}
+			a.Events = append(a.Events, Event{Kind: "refused", UE: u.idx})
+			return []dlMsg{{b, fmt.Sprintf("DownlinkNASTransport/DLNASTransport/%s ue=%d psi=%d", ch.Refuse, u.idx, u.psi)}}, what, nil
+		}
 		var err1, err2 error
 		u.ueIP, err1 = parseIPv4(ch.UEIP)
 		u.upfIP, err2 = parseIPv4(ch.UPFIP)
